@@ -159,6 +159,25 @@ func NewWorldAccts(names []string, acctsOf func(string) []Acct) *World {
 	return w
 }
 
+// Rotate: governance on chain cn re-registers the relayer with another counterparty address for chain dn (the
+// outsider's address), or with the original one again; the other chains' entries are kept as they are.
+func (w *World) Rotate(cn, dn string) (string, string) {
+	c := w.Chains[cn]
+	rel := c.Accts[AcctRelayer].Acc.String()
+	ir, _ := c.App.XIBCKeeper.ClientKeeper.GetRelayer(c.Ctx(), rel)
+	chains, addrs := append([]string{}, ir.Chains...), append([]string{}, ir.Addresses...)
+	for i, ch := range chains {
+		if ch == w.ID[dn] {
+			if addrs[i] == rel {
+				addrs[i] = c.Accts[AcctOutside].Acc.String()
+			} else {
+				addrs[i] = rel
+			}
+		}
+	}
+	return c.ExecProposal(clienttypes.NewRegisterRelayerProposal("t", "d", rel, chains, addrs))
+}
+
 // worldTrack, when set, names the chain whose headers the client called `name` on chain `on` follows (hub world).
 var worldTrack func(on, name string) string
 
@@ -754,6 +773,32 @@ func (w *World) Project(n string) M {
 		acks = append(acks, []interface{}{w.absName(pa.SrcChain), w.absName(pa.DstChain), pa.Sequence, w.ackCode(k, hex.EncodeToString(pa.Data))})
 	}
 	seq, cseq, out, bind, wbal, wsup, clients, wlock := M{}, M{}, M{}, M{}, M{}, M{}, M{}, M{}
+	rot, badrel := M{}, [][]interface{}{}
+	relAddr := c.Accts[AcctRelayer].Acc.String()
+	if ir, ok := c.App.XIBCKeeper.ClientKeeper.GetRelayer(ctx, relAddr); ok {
+		for i, ch := range ir.Chains {
+			if a := w.Abs[ch]; a != "" {
+				rot[a] = ir.Addresses[i] != relAddr
+			}
+		}
+	}
+	for _, d := range w.Names {
+		if _, ok := rot[d]; !ok && d != n {
+			rot[d] = false
+		}
+	}
+	for _, pa := range pk.GetAllPacketAcks(ctx) {
+		// acknowledgements written by this chain (it is the destination) whose relayer field is not the relayer's own address
+		if pa.DstChain != c.ChainID {
+			continue
+		}
+		if bz, ok := w.AckBytes[w.key(pa.SrcChain, pa.DstChain, pa.Sequence)]; ok {
+			var a packettypes.Acknowledgement
+			if a.ABIDecode(bz) == nil && a.Relayer != relAddr {
+				badrel = append(badrel, []interface{}{w.absName(pa.SrcChain), w.absName(pa.DstChain), pa.Sequence})
+			}
+		}
+	}
 	status, fees := [][]interface{}{}, [][]interface{}{}
 	user := c.Accts[AcctUser]
 	for _, d := range w.Names {
@@ -795,7 +840,7 @@ func (w *World) Project(n string) M {
 	}
 	org := w.Origin[n]
 	return M{"h": len(w.AbsH[n]) - 1, "seq": seq, "cseq": cseq, "commits": commits, "receipts": receipts, "acks": acks,
-		"out": out, "bind": bind, "wbal": wbal, "wsup": wsup, "wlock": wlock, "status": status, "fees": fees, "clients": clients,
+		"rot": rot, "badrel": badrel, "out": out, "bind": bind, "wbal": wbal, "wsup": wsup, "wlock": wlock, "status": status, "fees": fees, "clients": clients,
 		"ubal":   w.viewBig(c, erc20ABI, org, "balanceOf", user.Eth),
 		"rbal":   w.viewBig(c, erc20ABI, org, "balanceOf", c.Accts[AcctRelayer].Eth),
 		"held":   w.viewBig(c, erc20ABI, org, "balanceOf", packetAddr),
